@@ -23,17 +23,10 @@ pub fn events(l: &[GTx], tk: &str) -> Vec<Q> {
     }).collect()
 }
 
-/// effective iff shares were held when the event's day began (purchases and sales dated before it);
-/// only used for ledgers without splits, where the pre-pass's notion of "held" is the plain position
+/// effective iff shares were held when the event's day began: purchases minus sales of the earlier days,
+/// rescaled by the splits of those days (`position_before`)
 pub fn effective_simple(l: &[GTx], tk: &str) -> Option<Vec<bool>> {
-    if l.iter().any(|t| t.ticker == tk && matches!(t.kind, Kind::Split | Kind::Unsplit)) { return None; }
-    Some(l.iter().filter(|t| t.ticker == tk && matches!(t.kind, Kind::Accumulation | Kind::CapReturn)).map(|e| {
-        let mut p = Q::zero();
-        for t in l.iter().filter(|t| t.ticker == tk && t.date < e.date) {
-            match t.kind { Kind::Buy => p = p.add(&Q::from_dec(t.a)), Kind::Sell => p = p.sub(&Q::from_dec(t.a)), _ => {} }
-        }
-        p.is_pos()
-    }).collect())
+    Some(l.iter().filter(|t| t.ticker == tk && matches!(t.kind, Kind::Accumulation | Kind::CapReturn)).map(|e| position_before(l, tk, e.date).is_pos()).collect())
 }
 
 pub fn oracle(l: &[GTx], out: &[RMatchT]) -> Option<String> {
@@ -69,7 +62,7 @@ pub fn run(ctx: &mut Ctx) {
     let cfg = GenCfg::standard();
     let n = ctx.n(700, 50_000);
     let cases = matcher_cases(prop, ctx, &cfg, n);
-    ctx.ev.rule = "corpus + fixtures + generated ledgers (fees on every trade, partial lots, same-day/30-day/pool mixes, splits, cost events while shares are held; plus two lots of very different unit cost followed by a capital return that exceeds the cheap lot's own cost per share). Oracle on the real matcher's full-precision output: per security Σ legs' allowable cost + closing cost − Σ (q·p + fees) = Σ signed cost events that took effect (events dated when the position was positive; with splits present: some subset of the events). Correspondence: costs of legs (per rule and acquisition date) and closing cost vs the Lean model. Known-finding class zeroQuantityBuyWithCost (D14) is probed with two fixed ledgers. Non-trivial = accepted ledger with ≥ 2 rules in use and a fee > 0, or an effective cost event; distinct by ledger text.".into();
+    ctx.ev.rule = "corpus + fixtures + generated ledgers (fees on every trade, partial lots, same-day/30-day/pool mixes, splits, cost events while shares are held; plus two lots of very different unit cost followed by a capital return that exceeds the cheap lot's own cost per share). Oracle on the real matcher's full-precision output: per security Σ legs' allowable cost + closing cost − Σ (q·p + fees) = Σ signed cost events that took effect (events dated when the position, rescaled by earlier splits, was positive). Correspondence: costs of legs (per rule and acquisition date) and closing cost vs the Lean model. Known-finding class zeroQuantityBuyWithCost (D14) is probed with two fixed ledgers. Non-trivial = accepted ledger with ≥ 2 rules in use and a fee > 0, or an effective cost event; distinct by ledger text.".into();
     // known finding D14 (class zeroQuantityBuyWithCost): the ledgers below are not validator-clean, so the
     // theorems (which assume WellFormed) and the main loop skip them; `report` accepts them all the same
     {
